@@ -80,10 +80,18 @@ def gen_case(rng):
             "off": q(rng.choice([F(0), F(-8)])), "noobj": (not lc) and rng.random() < 0.3}
     span = rng.choice([2, 6, 6, 12])
     tok = [0]
+    # replace-heavy histories (local competition): a high threshold on a small lattice makes most candidates
+    # non-novel, rising objectives make them win, so whole calls consist of replacements that move stored entries
+    climb = lc and rng.random() < 0.4
+    if climb:
+        case["nu"] = rng.choice([q(F(5, 2)), q(F(5)), "13/10"])
+        span = rng.choice([2, 3, 6])
 
     def row():
         tok[0] += 1
         m = [q(F(rng.randint(-span, span))) for _ in range(nd)]
+        if climb:
+            return [tok[0], q(F(tok[0] + rng.randint(-3, 3), rng.choice([1, 2]))), m]
         if rng.random() < 0.15:
             m = [q(F(rng.choice([0, 3, 4, -3, -4]))) for _ in range(nd)]
         return [tok[0], q(F(rng.randint(-6, 6), rng.choice([1, 2]))), m]
